@@ -8,6 +8,7 @@ package openflow13
 import (
 	"net"
 
+	"github.com/contiv/libOpenflow/protocol"
 	"github.com/contiv/libOpenflow/util"
 )
 
@@ -314,3 +315,68 @@ func lemmaCtorNewRegMatchFieldNoRange(idx int, data uint32) (b []byte) {
 
 // C04, instance level: a hello whose first element is of an unknown type with a length that is not a multiple of 4
 func lemmaParseHelloUnknownThenBitmap(b []byte) (util.Message, error) { return Parse(b) }
+
+// C05: a packet-in (switch-originated, but the library has both codecs) with one match field and a raw Ethernet frame
+func lemmaContPacketIn(p *PacketIn, port uint32, dst, src net.HardwareAddr, raw *util.Buffer) (d util.Message, err error, b1, b2 []byte) {
+	p.Match = *NewMatch()
+	p.Match.AddField(*NewInPortField(port))
+	p.Data = protocol.Ethernet{HWDst: dst, HWSrc: src, Ethertype: 0x88b5, Data: raw}
+	p.Header.Length = p.Len()
+	b1, _ = p.MarshalBinary()
+	d, err = Parse(b1)
+	if err != nil || d == nil {
+		return
+	}
+	b2, _ = d.MarshalBinary()
+	return
+}
+
+// C05: switch-originated kinds that the library can also encode: values from the constructors with symbolic fields
+func lemmaContFlowRemoved(cookie uint64, prio uint16, reason, table uint8, dsec, dnsec uint32, idle, hard uint16, pkts, bytes uint64, port uint32) (f *FlowRemoved, d util.Message, err error, b1, b2 []byte) {
+	f = NewFlowRemoved()
+	f.Cookie, f.Priority, f.Reason, f.TableId, f.DurationSec, f.DurationNSec = cookie, prio, reason, table, dsec, dnsec
+	f.IdleTimeout, f.HardTimeout, f.PacketCount, f.ByteCount = idle, hard, pkts, bytes
+	f.Match.AddField(*NewInPortField(port))
+	f.Header.Type = Type_FlowRemoved // the constructor leaves the type code to its caller
+	f.Header.Length = f.Len()
+	b1, _ = f.MarshalBinary()
+	d, err = Parse(b1)
+	if err != nil || d == nil {
+		return
+	}
+	b2, _ = d.MarshalBinary()
+	return
+}
+
+func lemmaContPortStatus(reason uint8, portNo, config, state, curr uint32, hw net.HardwareAddr, name []byte) (s *PortStatus, d util.Message, err error, b1, b2 []byte) {
+	s = NewPortStatus()
+	s.Header.Type = Type_PortStatus // the constructor leaves type code and port buffers to its caller
+	s.Desc = *NewPhyPort()
+	s.Reason = reason
+	s.Desc.PortNo, s.Desc.Config, s.Desc.State, s.Desc.Curr = portNo, config, state, curr
+	copy(s.Desc.HWAddr, hw)
+	copy(s.Desc.Name, name)
+	b1, _ = s.MarshalBinary()
+	d, err = Parse(b1)
+	if err != nil || d == nil {
+		return
+	}
+	b2, _ = d.MarshalBinary()
+	return
+}
+
+func lemmaContErrorMsg(etype, code uint16, payload []byte) (e *ErrorMsg, d util.Message, err error, b1, b2 []byte) {
+	e = NewErrorMsg()
+	e.Header = NewOfp13Header() // the constructor leaves the header to its caller
+	e.Header.Type = Type_Error
+	e.Type, e.Code = etype, code
+	e.Data = *util.NewBuffer(append([]byte{}, payload...))
+	e.Header.Length = e.Len()
+	b1, _ = e.MarshalBinary()
+	d, err = Parse(b1)
+	if err != nil || d == nil {
+		return
+	}
+	b2, _ = d.MarshalBinary()
+	return
+}
